@@ -54,14 +54,14 @@ fn models() -> Vec<BTreeMap<u32, Vec<u32>>> {
 
 struct Env2 {
     dir: std::path::PathBuf,
-    env: heed::Env,
+    env: crate::common::Env,
     db: RawDb,
 }
 
 impl Env2 {
     fn new() -> Env2 {
         let dir = fresh_scratch_dir("c08");
-        let env = unsafe { heed::EnvOpenOptions::new().map_size(64 << 20).max_readers(2048).open(&dir) }.unwrap();
+        let env = unsafe { heed::EnvOpenOptions::new().read_txn_without_tls().map_size(64 << 20).max_readers(2048).open(&dir) }.unwrap();
         let mut w = env.write_txn().unwrap();
         let db: RawDb = env.create_database(&mut w, None).unwrap();
         w.commit().unwrap();
@@ -77,7 +77,7 @@ impl Drop for Env2 {
 
 /// The writer's script. `y` is called at every yield point; `commits` counts completed commits.
 /// Returns the raw dump after each commit.
-fn writer_script(env: &heed::Env, db: RawDb, y: &(dyn Fn(&'static str) + Sync), commits: &AtomicUsize) -> Result<Vec<Kv>, String> {
+fn writer_script(env: &crate::common::Env, db: RawDb, y: &(dyn Fn(&'static str) + Sync), commits: &AtomicUsize) -> Result<Vec<Kv>, String> {
     let mut dumps = Vec::new();
     let adb = arroy_db::<D>(db);
     let writer = arroy::Writer::<D>::new(adb, 0, DIM);
@@ -284,7 +284,7 @@ fn run_schedule(opens: &[usize], refs: &[Kv], models: &[BTreeMap<u32, Vec<u32>>]
             let observations = &observations;
             scope.spawn(move || {
                 let me = 1 + k;
-                let mut rtxn: Option<heed::RoTxn<heed::WithTls>> = None;
+                let mut rtxn: Option<heed::RoTxn<heed::WithoutTls>> = None;
                 let mut version = 0usize;
                 let mut first: Option<Kv> = None;
                 loop {
